@@ -43,6 +43,7 @@ static unsigned long opAssigns, opCopies;   // per op: assignments to container-
 static unsigned opSerialStart;     // first object serial handed out by the current op
 static unsigned nextSerial;
 static int curKind = -1;           // kind of the container the current op works on (tags new blocks)
+static int curVar = 0;             // index of the variable the current op modifies (the one that allocates)
 
 static char evlog[1 << 20];
 static size_t evlen;
@@ -59,10 +60,11 @@ static void ev(const char* s)
 // ---- block ledger ------------------------------------------------------------------------
 enum { KA, KL, KM, KU, KH, KS, KP, KQ, NKIND };
 static const char KLETTER[NKIND + 1] = "ALMUHSPQ";
-struct KindInfo { size_t header, stride, keyOff, valOff, nodeBlock; };   // keyOff/valOff = (size_t)-1 if absent
+struct KindInfo { size_t header, stride, keyOff, valOff; };   // keyOff/valOff = (size_t)-1 if absent
 static KindInfo kinds[NKIND];
 
-struct Block { char* base; size_t size; unsigned id; int kind; int cls; bool freed; };   // cls 0 node block, 1 array storage, 2 hash table
+struct Block { char* base; size_t size; unsigned id; int kind; int cls; size_t count; bool freed; };   // cls 0 node block, 1 array storage, 2 hash table; count = element slots
+static bool hashTableMissing(int kind, int var);   // does the hash container in that variable still lack its table?
 static Block blocks[1 << 14];
 static unsigned nBlocks, nextBlockId, liveBlocks, nDoubleFree;
 
@@ -88,9 +90,12 @@ void* operator new[](usize size)
   b.base = p; b.size = size ? size : 1; b.id = nextBlockId++; b.kind = curKind; b.freed = false;
   const KindInfo& k = kinds[curKind];
   size_t slots;
+  // The number of items per block is NOT assumed: it is what the allocation has room for.  The hash containers allocate
+  // their table exactly when `data` is still null (looked up in the container itself), everything else is an item block.
   if(curKind == KA) { b.cls = 1; slots = size / k.stride; }
-  else if(size == k.nodeBlock) { b.cls = 0; slots = 4; }
-  else { b.cls = 2; slots = 0; }
+  else if((curKind == KH || curKind == KS || curKind == KQ) && hashTableMissing(curKind, curVar)) { b.cls = 2; slots = 0; }
+  else { b.cls = 0; slots = size >= k.header ? (size - k.header) / k.stride : 0; }
+  b.count = slots;
   ++liveBlocks;
   char t[64];
   snprintf(t, sizeof(t), "N%u:%lu", b.id, (unsigned long)slots);
@@ -205,7 +210,7 @@ static void locStr(const void* p, char* out, size_t n)
   if(b->cls == 2 || off < (b->cls == 0 ? k.header : 0)) { snprintf(out, n, "%s%u.?", b->freed ? "!" : "", b->id); return; }
   if(b->cls == 0) off -= k.header;
   size_t idx = off / k.stride, in = off % k.stride;
-  const char* f = b->cls == 1 ? (in == 0 ? "v" : "?") : in == k.keyOff ? "k" : in == k.valOff ? "v" : "?";
+  const char* f = idx >= b->count ? "?" : b->cls == 1 ? (in == 0 ? "v" : "?") : in == k.keyOff ? "k" : in == k.valOff ? "v" : "?";
   snprintf(out, n, "%s%u.%lu%s", b->freed ? "!" : "", b->id, (unsigned long)idx, f);
 }
 static bool isTemp(const void* p)
@@ -341,18 +346,29 @@ static bool varLive[NKIND][2];
 
 template<class C> static C& V(int k, int v) { return *(C*)varStorage[k][v]; }
 
+static bool hashTableMissing(int kind, int var)
+{
+  switch(kind)
+  {
+  case KH: return V<TH>(kind, var).data == 0;
+  case KS: return V<TS>(kind, var).data == 0;
+  case KQ: return V<TQ>(kind, var).data == 0;
+  }
+  return false;
+}
+
 static void setupKinds()
 {
-  kinds[KA] = KindInfo{0, sizeof(Tracked), NONE, 0, 0};
-  kinds[KL] = KindInfo{sizeof(TL::ItemBlock), sizeof(TL::Item), NONE, offsetof(TL::Item, value), sizeof(TL::ItemBlock) + 4 * sizeof(TL::Item)};
-  kinds[KM] = KindInfo{sizeof(TM::ItemBlock), sizeof(TM::Item), offsetof(TM::Item, key), offsetof(TM::Item, value), sizeof(TM::ItemBlock) + 4 * sizeof(TM::Item)};
-  kinds[KU] = KindInfo{sizeof(TU::ItemBlock), sizeof(TU::Item), offsetof(TU::Item, key), offsetof(TU::Item, value), sizeof(TU::ItemBlock) + 4 * sizeof(TU::Item)};
-  kinds[KH] = KindInfo{sizeof(TH::ItemBlock), sizeof(TH::Item), offsetof(TH::Item, key), offsetof(TH::Item, value), sizeof(TH::ItemBlock) + 4 * sizeof(TH::Item)};
-  kinds[KS] = KindInfo{sizeof(TS::ItemBlock), sizeof(TS::Item), offsetof(TS::Item, key), NONE, sizeof(TS::ItemBlock) + 4 * sizeof(TS::Item)};
+  kinds[KA] = KindInfo{0, sizeof(Tracked), NONE, 0};
+  kinds[KL] = KindInfo{sizeof(TL::ItemBlock), sizeof(TL::Item), NONE, offsetof(TL::Item, value)};
+  kinds[KM] = KindInfo{sizeof(TM::ItemBlock), sizeof(TM::Item), offsetof(TM::Item, key), offsetof(TM::Item, value)};
+  kinds[KU] = KindInfo{sizeof(TU::ItemBlock), sizeof(TU::Item), offsetof(TU::Item, key), offsetof(TU::Item, value)};
+  kinds[KH] = KindInfo{sizeof(TH::ItemBlock), sizeof(TH::Item), offsetof(TH::Item, key), offsetof(TH::Item, value)};
+  kinds[KS] = KindInfo{sizeof(TS::ItemBlock), sizeof(TS::Item), offsetof(TS::Item, key), NONE};
   // PoolList slots: link header followed by the element (rounded up to pointer alignment, as the header itself may do)
   const size_t pslot = (sizeof(TP::Item) + sizeof(Fixed) + sizeof(void*) - 1) / sizeof(void*) * sizeof(void*);
-  kinds[KP] = KindInfo{sizeof(TP::ItemBlock), pslot, NONE, sizeof(TP::Item), sizeof(TP::ItemBlock) + 4 * pslot};
-  kinds[KQ] = KindInfo{sizeof(TQ::ItemBlock), sizeof(TQ::Item), offsetof(TQ::Item, key), offsetof(TQ::Item, value), sizeof(TQ::ItemBlock) + 4 * sizeof(TQ::Item)};
+  kinds[KP] = KindInfo{sizeof(TP::ItemBlock), pslot, NONE, sizeof(TP::Item)};
+  kinds[KQ] = KindInfo{sizeof(TQ::ItemBlock), sizeof(TQ::Item), offsetof(TQ::Item, key), offsetof(TQ::Item, value)};
   sents[KA] = SentInfo{NONE, NONE};
   sents[KL] = SentInfo{NONE, offsetof(TL, endItem) + offsetof(TL::Item, value)};
   sents[KM] = SentInfo{offsetof(TM, endItem) + offsetof(TM::Item, key), offsetof(TM, endItem) + offsetof(TM::Item, value)};
@@ -369,7 +385,7 @@ static void destroyVar(int k, int v)
 {
   if(!varLive[k][v]) return;
   varLive[k][v] = false;
-  curKind = k;
+  curKind = k; curVar = v;
   switch(k)
   {
   case KA: V<TA>(k, v).~TA(); break;
@@ -384,7 +400,7 @@ static void destroyVar(int k, int v)
 }
 static void createVar(int k, int v)
 {
-  curKind = k;
+  curKind = k; curVar = v;
   void* p = varStorage[k][v];
   memset(p, 0xAA, VARSZ);
   switch(k)
@@ -572,6 +588,7 @@ int main(int argc, char** argv)
     unsigned long a1 = hxNum(l, 1), a2 = l.ntok > 2 ? hxNum(l, 2) : 0, a3 = l.ntok > 3 ? hxNum(l, 3) : 0, a4 = l.ntok > 4 ? hxNum(l, 4) : 0;
     if(a1 > 1) { bad(); continue; }
     int v = (int)a1;
+    curVar = v;
     op += 2;
 #define IS(name, n) (l.ntok == (n) + 1 && strcmp(op, name) == 0)
     curKind = k;
